@@ -2,7 +2,8 @@
 (* Bounded instance of BitcaskFault.tla: the base scope of MC_Seq plus one transient failure *)
 EXTENDS BitcaskFault
 MCKLen == [k \in Keys |-> 1]
-MCVLen == [v \in Vals |-> IF v = "v0" THEN 0 ELSE 1]
+\* "vB" is a value above the write buffer: its record reaches the file in two write(2) calls (26 + 9000 bytes)
+MCVLen == [v \in Vals |-> IF v = "v0" THEN 0 ELSE IF v = "vB" THEN 9000 ELSE 1]
 Big == 1000000
 ThAll  == [thFragNum |-> 1, thFragDen |-> 1, thDead |-> Big, thSmall |-> Big]
 ThFrag == [thFragNum |-> 1, thFragDen |-> 2, thDead |-> Big, thSmall |-> 0]
@@ -11,5 +12,8 @@ Mk(mf, sy, th) == [maxFile |-> mf, sync |-> sy] @@ th
 MCConfigsFault == {Mk(mf, sy, th) : mf \in {0, 60, Big}, sy \in {"none", "always"}, th \in {ThAll, ThFrag, ThDead}}
 MCConfigsFaultSync == {Mk(mf, "always", th) : mf \in {0, 60, Big}, th \in {ThAll, ThFrag, ThDead}}
 MCConfigsFaultSync0 == {Mk(0, "always", th) : th \in {ThAll, ThFrag, ThDead}}
+\* scope with a record above the write buffer: file sizes below one big record / between one and two / unbounded
+MCConfigsFaultBig == {Mk(mf, sy, th) : mf \in {60, 10000, Big}, sy \in {"none", "always"}, th \in {ThAll, ThFrag}}
+MCConfigsFaultBigSync == {Mk(mf, "always", th) : mf \in {60, 10000, Big}, th \in {ThAll, ThFrag}}
 OpsBound == nops <= MaxOps
 ==============================================================================
